@@ -18,7 +18,11 @@ theorem openWalk_depth : ∀ (n : Nat) (s : St), (openWalk n s).2.depth = s.dept
     unfold openWalk
     simp only [St.fetch]
     split
-    · rw [ih]; unfold St.setVarByName; split <;> rfl
+    · rw [ih]; unfold St.setVarByName; split
+      · rfl
+      · split
+        · rfl
+        · split <;> rfl
     · rw [ih]
     · split <;> simp [ih, St.setFile, St.took]
     · split <;> simp [ih, St.setFile, St.took]
@@ -102,6 +106,8 @@ theorem execOp_depth : ∀ (o : Op) (s : St), (execOp o s).2.depth = s.depth
   | .setArgv _ _, s => by simp [execOp, St.setArgv]
   | .setArgc _, s => by simp [execOp, St.setArgc]
   | .close _, s => by simp [execOp, St.closeStream]
+  | .setFilename _, s => by simp [execOp, St.assignFilename]
+  | .setFs _, s => by simp [execOp, St.assignFs]
 theorem execOps_depth : ∀ (os : List Op) (s : St), (execOps os s).2.depth = s.depth
   | [], s => by simp [execOps]
   | o :: os, s => by
